@@ -108,6 +108,7 @@ class Ledger(object):
         self.root = None
         self.reruns = 0
         self.routes_seen = {}
+        self.rerun_loose = False
 
     # ------------------------------------------------------------------ contexts
     def new_write(self, var, value, src):
@@ -220,6 +221,12 @@ class Ledger(object):
             # already consumed is offered again after a further inbound branch arrived
             tags = ["join_partial", "arrival_after_join_started"]
             kf = "KF-join-partial-late-arrival"
+        elif c is None and task in self.req and b is not None and b.get("rearmed") and not b["fired"]:
+            # precise signature: after a rerun a join downstream of the re-executed task is offered
+            # before the re-executed branches arrived again (the engine counts the records of the
+            # previous execution of those branches)
+            tags = ["rerun_join_downstream"]
+            kf = "KF-rerun-join-counts-stale-arrivals"
         elif c is None and task in self.req and self.cyc.get(task) and self.visits.get((task, route), 0) >= 1:
             # precise signature: a join inside a loop offered on a later iteration before its
             # barrier is satisfied again (the engine counts the previous iteration's records)
@@ -236,6 +243,9 @@ class Ledger(object):
             if kf == "KF-join-partial-late-arrival":
                 self.report("C07", "runs_once", "join %s@%s offered again after a late arrival (barrier already "
                             "consumed)" % (task, route), tags=tags, kf=kf)
+            elif kf == "KF-rerun-join-counts-stale-arrivals":
+                self.report("C17", "nothing_repeated", "join %s@%s offered after the rerun with %d of %d inbound tasks "
+                            "re-arrived" % (task, route, len(b["srcs"]), self.req[task]), tags=tags, kf=kf)
             elif kf is not None:
                 self.report("C07", "barrier_satisfied", "join %s@%s in a loop offered on a later iteration with %d of "
                             "%d inbound tasks arrived in this iteration" % (task, route, len(b["srcs"]) if b else 0,
@@ -244,6 +254,10 @@ class Ledger(object):
                 self.report("C07", "barrier_satisfied", "join %s@%s offered but the ledger holds %d of %d "
                             "distinct satisfied inbound tasks" % (task, route, len(b["srcs"]) if b else 0,
                                                                   self.req[task]), tags=["join"])
+            if self.reruns and not self.rerun_loose:
+                self.report("C17", "nothing_repeated", "after the rerun request task %s@%s was offered although it was "
+                            "neither requested, nor downstream of a requested task, nor still due" % (task, route),
+                            tags=tags, kf=kf)
             self.report("C01", "justified", "task %s@%s offered without a start/credit/retry/rerun "
                         "entitlement" % (task, route), tags=tags, kf=kf)
             vis = self.visits.get((task, route), 0) + 1
@@ -262,6 +276,9 @@ class Ledger(object):
                 vis = self.visits.get((task, route), 0) + 1
                 self.visits[(task, route)] = vis
                 x = Exec(len(self.execs), task, route, vis, 1, c.kind)
+                if c.kind == "rerun":
+                    x.rerun_of = getattr(c, "rerun_of", None)
+                    x.reset_items = getattr(c, "reset_items", False)
             x.ref = c.ref
             x.parents = list(c.parents)
             x.cleanup = c.cleanup
@@ -276,6 +293,21 @@ class Ledger(object):
         if t.get("with") is not None:
             x.items = {"n": None, "offered": [], "inflight": set(), "done": {}, "results": None,
                        "stopped": False}
+            old = getattr(x, "rerun_of", None)
+            if old is not None and old.items is not None and old.items.get("n") is not None:
+                # re-execution of a with-items task: items that had succeeded stay done unless
+                # reset_items was asked for; only the others are offered again
+                x.items["n"] = old.items["n"]
+                x.items["exp_items"] = old.items.get("exp_items")
+                x.items["results"] = list(old.items["results"] or [])
+                if not getattr(x, "reset_items", False):
+                    for i, stt in sorted(old.items["done"].items()):
+                        if stt == "succeeded":
+                            x.items["done"][i] = stt
+                            x.items["offered"].append(i)
+                    x.items["carried"] = sorted(x.items["done"])
+                else:
+                    x.items["results"] = [None] * old.items["n"]
         return x
 
     # ------------------------------------------------------------------ completion
@@ -447,6 +479,124 @@ class Ledger(object):
             b["credit"] = c
             b["fired"] = True
             self.credits.append(c)
+
+    # ------------------------------------------------------------------ rerun
+    def ancestors(self, x):
+        seen = set()
+        stack = list(x.parents)
+        while stack:
+            i = stack.pop()
+            if i in seen:
+                continue
+            seen.add(i)
+            stack.extend(self.execs[i].parents)
+        return seen
+
+    def descendants(self, x):
+        out = set()
+        for y in self.execs:
+            if y is not x and x.xid in self.ancestors(y):
+                out.add(y.xid)
+        return out
+
+    def reachable_tasks(self, task):
+        seen = set()
+        stack = [task]
+        while stack:
+            n = stack.pop()
+            for tr in lang.transitions(self.p, n) if n in self.p["tasks"] else []:
+                for tgt in tr.get("do") or []:
+                    if tgt in self.p["tasks"] and tgt not in seen:
+                        seen.add(tgt)
+                        stack.append(tgt)
+        return seen
+
+    def latest_exec_by_record(self):
+        m = {}
+        for x in self.execs:
+            if getattr(x, "rec_idx", None) is not None:
+                m[x.rec_idx] = x
+        return m
+
+    def on_rerun(self, reqs, state, records_before):
+        """An accepted rerun.  reqs: None (default) or [[task, route, reset_items]].  Checks the
+        selection the conductor recorded against the request, and hands out rerun entitlements."""
+        self.reruns += 1
+        selected = list((state.get("reruns") or [[]])[-1])
+        by_rec = self.latest_exec_by_record()
+        sel_execs = []
+        for i in selected:
+            rec = records_before[i] if i < len(records_before) else {}
+            x = by_rec.get(i)
+            if rec.get("id") in lang.ENGINE_COMMANDS:
+                kf = "KF-rerun-default-offers-fail-command" if (reqs is None and rec.get("id") == "fail") else None
+                self.report("C17", "only_requested", "rerun selected the engine command %r (record #%d) as a task to "
+                            "re-execute" % (rec.get("id"), i), tags=["rerun_default_after_fail_command"] if kf else [], kf=kf)
+                continue
+            if x is None:
+                continue
+            if reqs is None and rec.get("status") not in ("failed", "timeout", "abandoned"):
+                self.report("C17", "only_requested", "default rerun selected %s whose status is %r (not failed)"
+                            % (x.key(), rec.get("status")))
+            sel_execs.append(x)
+        if reqs is not None:
+            want = {}
+            for task, route, reset in reqs:
+                cand = [x for x in self.execs if x.task == task and x.route == route and x.kind != "bogus"]
+                if cand:
+                    want[(task, route)] = (cand[-1], bool(reset))
+            # a request that is downstream of another request collapses into it
+            keep = {}
+            for k, (x, reset) in want.items():
+                anc = self.ancestors(x)
+                if not any(o is not x and o.xid in anc for (o, _) in want.values()):
+                    keep[k] = (x, reset)
+            exp = sorted(x.key() for (x, _) in keep.values())
+            got = sorted(x.key() for x in sel_execs)
+            if exp != got:
+                kf, tags = None, []
+                if set(exp) < set(got):
+                    # precise signature: requests that are downstream of another request were not
+                    # collapsed (get_task_sequence only collects direct successors, and the
+                    # collapse keeps a request whose own successors are not in the other's list)
+                    kf, tags = "KF-rerun-requests-not-collapsed", ["rerun_requests_downstream"]
+                self.report("C17", "only_requested", "rerun of %r selected %r, expected %r (requests downstream of "
+                            "another request collapse)" % (reqs, got, exp), tags=tags, kf=kf)
+        resets = dict(((t, r), bool(z)) for t, r, z in (reqs or []))
+        if any(self.cyc.get(x.task) for x in sel_execs):
+            # re-executing part of a loop next to successors that are still due merges or repeats
+            # loop iterations in ways the statement does not pin down: offers are not judged
+            self.rerun_loose = True
+        for x in sel_execs:
+            x.reran = True
+            c = Credit(x.task, x.route, "rerun", x.ref, list(x.parents), cleanup=False)
+            c.rerun_of = x
+            c.reset_items = resets.get((x.task, x.route), False)
+            self.credits.append(c)
+            if x.xid in self.unhandled:
+                self.unhandled.remove(x.xid)
+            self.fail_cmd = [i for i in self.fail_cmd if i != x.xid]
+            self.runtime_errors = [e for e in self.runtime_errors if e[0] != x.xid]
+            # whatever follows from the re-executed task runs again: re-arm the joins downstream
+            desc = self.descendants(x) | set([x.xid])
+            reach = self.reachable_tasks(x.task)
+            for (j, r), b in list(self.barriers.items()):
+                if j in reach:
+                    b["arrivals"] = [a for a in b["arrivals"] if a[1] not in desc]
+                    b["srcs"] = []
+                    for a in b["arrivals"]:
+                        if a[0] not in b["srcs"]:
+                            b["srcs"].append(a[0])
+                    b["fired"] = False
+                    b["offered"] = False
+                    b["late"] = 0
+                    b["rearmed"] = True
+                    if b["credit"] is not None and not b["credit"].consumed:
+                        b["credit"].void = True
+                    b["credit"] = None
+            # successors the old execution had already earned but that never started stay due
+            # (the statement lets "work that was still due" start); the re-execution earns its own
+        return sel_execs
 
     # ------------------------------------------------------------------ queries for oracles
     def unsatisfied_barriers(self):
